@@ -118,7 +118,7 @@ pub fn build_cases(cfg: &Cfg) -> Vec<Case> {
         let n = g.pres.ngens;
         let k = match n {
             0 | 1 => cfg.tier.pick(6, 8),
-            2 => cfg.tier.pick(4, 6),
+            2 => cfg.tier.pick(5, 7),
             3 => cfg.tier.pick(4, 5),
             _ => cfg.tier.pick(3, 4),
         };
@@ -146,7 +146,7 @@ pub fn build_cases(cfg: &Cfg) -> Vec<Case> {
     for s in gen::connected_sets_upto(2, cfg.tier.pick(3, 4)) {
         gen::for_all_branchings(&s, &|_, _| vec![1, 2, 3, 4, 6], &mut |x| {
             let k = crate::oracle::orbifold::curvature(x).sign();
-            if k <= 0 && count < cfg.tier.pick(120, 1200) {
+            if k <= 0 && count < cfg.tier.pick(500, 3000) {
                 count += 1;
                 let tb = pi1::textbook_pi1(x);
                 if tb.pres.ngens <= 4 {
@@ -166,7 +166,7 @@ pub fn build_cases(cfg: &Cfg) -> Vec<Case> {
     let mut count3 = 0;
     for s in gen::connected_sets_upto(3, 2) {
         gen::for_all_branchings(&s, &|_, _| vec![1, 2, 3, 4, 6], &mut |x| {
-            if count3 < cfg.tier.pick(60, 400) && gen::locally_spherical_3d(x) {
+            if count3 < cfg.tier.pick(200, 1000) && gen::locally_spherical_3d(x) {
                 count3 += 1;
                 if let Ok(fg) = observe(|| {
                     let fg = rust_dsymbols::fundamental_group::fundamental_group(&to_partial_dsym(x));
